@@ -221,6 +221,12 @@ impl PartialOrd for Cell {
             (Cell::Int(a), Cell::Int(b)) => a.partial_cmp(b),
             (Cell::Real(a), Cell::Real(b)) => a.partial_cmp(b),
             (Cell::Str(a), Cell::Str(b)) => a.partial_cmp(b),
+            // values of one type are ordered by content, so distinct map keys stay distinct
+            (Cell::Nil, Cell::Nil) => Some(Ordering::Equal),
+            (Cell::Flag(a), Cell::Flag(b)) => a.partial_cmp(b),
+            (Cell::Bitstr(a), Cell::Bitstr(b)) => Some(a.bits().cmp(b.bits())),
+            (Cell::Vector(a), Cell::Vector(b)) => Some(a.iter().cmp(b.iter())),
+            (Cell::Map(a), Cell::Map(b)) => Some(a.iter().cmp(b.iter())),
             _ => None,
         }
     }
